@@ -925,7 +925,7 @@ def mk_specs():
          M(3, 'summary', 'res', noargs, kw('summary'))],
         ['risk_difference', 'risk_difference_se', 'risk_difference_ci', 'risk_difference_vector', 'risk_ratio',
          'risk_ratio_se', 'risk_ratio_ci', 'risk_ratio_vector', 'ace', 'ace_se', 'ace_ci', 'ace_vector'],
-        {'fit': ['exposure_model', 'outcome_model']}, lean_name=None)
+        {'fit': ['exposure_model', 'outcome_model']}, lean_name=lambda c: c['cls'])     # one generated table per class
     S['Crossfit'].quick_cells = 2
     return S
 
@@ -1074,6 +1074,11 @@ def against_fresh(spec, fresh, ops, i, res, obs, pre_list, post_list, skip=()):
         [ops[j] for j in pre_list] + [op]
 
 
+def lean_of(spec, cell):
+    """name of the class table the driver runs for this spec / cell (None: no table, gate D only)"""
+    return spec.lean_name(cell) if callable(spec.lean_name) else spec.lean_name
+
+
 def run_history(chk, drv, spec, cell, df, dseed, ops, tag, judge_every=True, ngen=None, unavailable=()):
     """drive one object through `ops`; K / D after every call"""
     watch = Watch()
@@ -1088,13 +1093,13 @@ def run_history(chk, drv, spec, cell, df, dseed, ops, tag, judge_every=True, nge
     if fresh is None:
         fresh = run_history.fresh[tag] = Fresh(spec, df, cell, watch, chk, tag)
     fresh.watch = watch
-    base = {'class': spec.name, 'lean_class': spec.lean_name, 'cell': cell, 'dseed': dseed,
+    base = {'class': spec.name, 'lean_class': lean_of(spec, cell), 'cell': cell, 'dseed': dseed,
             'n': ngen if ngen is not None else len(df),
             'ops': [{'mid': o['mid'], 'name': o['name'], 'args': o['args'], 'flag': o['flag']} for o in ops]}
     # ---- the model's prediction for the whole history
     model = None
-    if drv is not None and spec.lean_name is not None:
-        rep, line = drv.ask('hist', cls=spec.lean_name, miss=int(bool(cell.get('miss', False))),
+    if drv is not None and lean_of(spec, cell) is not None:
+        rep, line = drv.ask('hist', cls=lean_of(spec, cell), miss=int(bool(cell.get('miss', False))),
                             ops=','.join('%d:%d' % (o['mid'], int(o['flag'])) for o in ops))
         if rep['status'] == 'ok':
             model = []
@@ -1635,7 +1640,7 @@ def safe_history(chk, drv, spec, cell, df, dseed, ops, tag, **kw):
     except Exception as e:
         import traceback
         chk.d(False, '%s: harness could not evaluate the history (%s)' % (spec.name, type(e).__name__),
-              {'class': spec.name, 'lean_class': spec.lean_name, 'cell': cell, 'dseed': dseed, 'n': kw.get('ngen'),
+              {'class': spec.name, 'lean_class': lean_of(spec, cell), 'cell': cell, 'dseed': dseed, 'n': kw.get('ngen'),
                'ops': [{'mid': o['mid'], 'name': o['name'], 'args': o['args'], 'flag': o['flag']} for o in ops],
                'error': traceback.format_exc()[-1500:]})
 
@@ -1681,7 +1686,7 @@ def recheck(chk, spec, key_name, cell, df, dseed, n, tag, rng):
             chk.count('recheck_' + mode)
             chk.d(not diffs and not bad, '%s: a fresh object gives the same result %s' % (
                 spec.name, 'when the run is repeated later' if mode == 'again' else 'with zEpid re-imported'),
-                  {'class': spec.name, 'lean_class': spec.lean_name, 'cell': cell, 'dseed': dseed, 'n': n,
+                  {'class': spec.name, 'lean_class': lean_of(spec, cell), 'cell': cell, 'dseed': dseed, 'n': n,
                    'ops': [{'mid': o['mid'], 'name': o['name'], 'args': o['args'], 'flag': o['flag']} for o in calls],
                    'differs': diffs, 'changed': bad, 'mode': mode},
                   signature=spec.known(calls) if spec.known else None)
@@ -1732,6 +1737,32 @@ def choose_cells(rng, spec, tier):
     return chosen
 
 
+def table_tie(chk, specs):
+    """The class tables the driver executes (`Gen/Tables.lean`) are derived from the source by harness/effects.py.
+    Recorded as evidence: what was derived per class (slots, registers, assumed configuration, refusals); checked: the
+    method numbering of the generated tables is the numbering of the specs below, and the analysis still finds the six
+    stale-state defects F26 on the parent commit of each repair and nothing on the repaired text."""
+    import effects
+    tabs = effects.tables_summary()
+    chk.extra['generated_tables'] = tabs
+    chk.extra['generated_tables_registers'] = {c: t.get('registers') for c, t in tabs.items() if t.get('registers')}
+    chk.extra['generated_tables_refused'] = {c: t['unsupported'] for c, t in tabs.items() if 'unsupported' in t}
+    for d, cls, path, methods, names in effects.CLASSES:
+        for nm in names:
+            spec = specs.get(nm) or next((sp for sp in specs.values() if callable(sp.lean_name) and
+                                          nm in {sp.lean_name(c) for c in sp.cells}), None)
+            mine = [m.name.split('(')[0] for m in spec.methods] if spec is not None else None
+            chk.k(mine == [m for m, _ in methods] and spec is not None and
+                  nm in ({spec.lean_name(c) for c in spec.cells} if callable(spec.lean_name) else {spec.lean_name}),
+                  'method numbering of the generated table %s = numbering of the harness' % nm,
+                  {'table': [m for m, _ in methods], 'harness': mine})
+    st = effects.selftest()
+    chk.extra['effects_selftest'] = st if st else 'git history of the repository not readable'
+    for r in st:
+        chk.k(r['ok'], 'effect analysis: register on the parent of a stale-state repair, none on the repaired text '
+              '(%s %s)' % (r['class'], r['rev']), r)
+
+
 def run(chk, drv, rng, tier):
     specs = mk_specs()
     quick = tier == 'quick'
@@ -1743,6 +1774,7 @@ def run(chk, drv, rng, tier):
     chk.h_checked += 1
     if not (np.array_equal(a1[0], a2[0]) and np.array_equal(a1[1], a2[1])):
         chk.discard('np.random.seed does not reproduce the stream')
+    table_tie(chk, specs)
     function_sweep(chk, rng)
     constructor_sweep(chk, rng)
     cells_done = []
